@@ -1344,3 +1344,224 @@ Proof.
   destruct (interp_loop pol 0 days2 None) as [[interp last]|e]; cbn [bind]; [|reflexivity].
   rewrite (mean_loop_local pol days1 days2 E). reflexivity.
 Qed.
+
+(* ================================================================== the guard of the hourly theorem is exact *)
+(* pattern_ok, spelled out: no day skips hour 23, the frame does not end on a day repeating hour 23, and no day
+   repeating hour 23 is directly followed by a day skipping hour 0 *)
+Definition is_short23 (k : daykind) : bool := match k with Short h => h =? 23 | _ => false end.
+Definition has_short23 (pat : list daykind) : bool := existsb is_short23 pat.
+Definition ends_long23 (pat : list daykind) : bool := match last pat Reg with Long h => h =? 23 | _ => false end.
+Fixpoint no_clash (pat : list daykind) : bool :=
+  match pat with
+  | [] => true
+  | k :: p => (match k, p with Long h, Short h' :: _ => negb ((h =? 23) && (h' =? 0)) | _, _ => true end) && no_clash p
+  end.
+
+Lemma ltb23_eqb : forall h, h < 24 -> (h <? 23) = negb (h =? 23).
+Proof.
+  intros h H. destruct (h =? 23) eqn:E.
+  - apply Nat.eqb_eq in E. subst. reflexivity.
+  - apply Nat.eqb_neq in E. apply Nat.ltb_lt. lia.
+Qed.
+
+Lemma pattern_ok_char : forall pat, forallb kind_ok pat = true -> no_clash pat = true ->
+  pattern_ok pat = negb (has_short23 pat) && negb (ends_long23 pat).
+Proof.
+  unfold has_short23, ends_long23. induction pat as [|k p IH]; intros Hk Hn; [reflexivity|].
+  cbn [forallb] in Hk. apply andb_true_iff in Hk. destruct Hk as [Hk1 Hk2].
+  cbn [no_clash] in Hn. apply andb_true_iff in Hn. destruct Hn as [Hn1 Hn2].
+  specialize (IH Hk2 Hn2).
+  destruct p as [|k' p'].
+  - destruct k as [|h|h]; cbn [kind_ok] in Hk1; cbn [pattern_ok existsb is_short23 last orb andb negb].
+    + reflexivity.
+    + apply Nat.ltb_lt in Hk1. rewrite (ltb23_eqb h Hk1). rewrite orb_false_r, !andb_true_r. reflexivity.
+    + rewrite Hk1. cbn [andb]. destruct (h =? 23); reflexivity.
+  - change (last (k :: k' :: p') Reg) with (last (k' :: p') Reg).
+    change (existsb is_short23 (k :: k' :: p')) with (is_short23 k || existsb is_short23 (k' :: p')).
+    destruct k as [|h|h]; cbn [kind_ok] in Hk1.
+    + cbn [pattern_ok is_short23 orb]. cbn [pattern_ok] in IH. exact IH.
+    + apply Nat.ltb_lt in Hk1.
+      change (pattern_ok (Short h :: k' :: p')) with ((h <? 23) && pattern_ok (k' :: p')).
+      rewrite IH, (ltb23_eqb h Hk1). cbn [is_short23]. rewrite negb_orb, andb_assoc. reflexivity.
+    + change (pattern_ok (Long h :: k' :: p')) with
+        ((h <? 24) && pattern_ok (k' :: p') &&
+         (if h =? 23 then match k' :: p' with [] => false | Short 0 :: _ => false | _ => true end else true)).
+      rewrite Hk1, IH. cbn [is_short23 orb andb].
+      destruct (h =? 23) eqn:E; [|apply andb_true_r].
+      destruct k' as [|h'|h']; try apply andb_true_r.
+      cbn [andb negb] in Hn1. destruct h' as [|h']; [discriminate Hn1 | apply andb_true_r].
+Qed.
+
+Section HourlyExact.
+  Context {V : Type}.
+  Variable mean2 : V -> V -> V.
+  Variable feat : hour_stamp -> V.
+  Variable regress : list (list V) -> list V.
+  Hypothesis regress_length : forall agg, length (regress agg) = 24 * length agg.
+
+  Lemma replace_day_length : forall n (f : list V) agg, length (replace_day n f agg) = length agg.
+  Proof.
+    intros n f agg. revert n. induction agg as [|x t IH]; intros n; [destruct n; reflexivity|].
+    destruct n as [|n]; cbn [replace_day length]; [reflexivity | rewrite IH; reflexivity].
+  Qed.
+
+  Lemma interp_day_length : forall agg d h agg', interp_day mean2 agg d h = Ok agg' -> length agg' = length agg.
+  Proof.
+    intros agg d h agg' E. unfold interp_day in E. destruct (nth_error agg d) as [f|]; [|discriminate].
+    match type of E with bind ?x _ = _ => destruct x as [a|e] end; cbn [bind] in E; [|discriminate].
+    destruct (nth_res f h) as [b|e]; cbn [bind] in E; [|discriminate].
+    apply (f_equal (fun r => match r with Ok x => length x | Err _ => 0 end)) in E. cbn beta iota in E.
+    rewrite replace_day_length in E. symmetry. exact E.
+  Qed.
+
+  Lemma mean_day_length : forall agg d h agg', mean_day mean2 agg d h = Ok agg' -> length agg' = length agg.
+  Proof.
+    intros agg d h agg' E. unfold mean_day in E. destruct (nth_error agg d) as [f|]; [|discriminate].
+    destruct (nth_res f (h + 1)) as [a|e]; cbn [bind] in E; [|discriminate].
+    destruct (nth_res f h) as [b|e]; cbn [bind] in E; [|discriminate].
+    destruct (h <? length (delete_at h f)); [|discriminate].
+    apply (f_equal (fun r => match r with Ok x => length x | Err _ => 0 end)) in E. cbn beta iota in E.
+    rewrite replace_day_length in E. symmetry. exact E.
+  Qed.
+
+  Lemma fold_days_length : forall step, (forall agg d h agg', step agg d h = Ok agg' -> length agg' = length agg) ->
+    forall l (agg agg' : list (list V)), fold_days step l agg = Ok agg' -> length agg' = length agg.
+  Proof.
+    intros step Hs. induction l as [|[d h] t IH]; intros agg agg' E; cbn [fold_days] in E.
+    - inversion E. reflexivity.
+    - destruct (step agg d h) as [a1|e] eqn:E1; cbn [bind] in E; [|discriminate].
+      rewrite (IH a1 agg' E). apply (Hs agg d h a1 E1).
+  Qed.
+
+  Lemma feature_matrix_length : forall agg idx agg', feature_matrix mean2 agg idx = Ok agg' -> length agg' = length agg.
+  Proof.
+    intros agg idx agg' E. unfold feature_matrix, correct_dst in E.
+    destruct (fold_days (interp_day mean2) (fst idx) agg) as [a1|e] eqn:E1; cbn [bind] in E; [|discriminate].
+    destruct (fold_days (mean_day mean2) (snd idx) a1) as [a2|e] eqn:E2; cbn [bind] in E; [|discriminate].
+    destruct (uniform a2); [|discriminate]. inversion E; subst.
+    rewrite (fold_days_length _ (mean_day_length) _ _ _ E2). apply (fold_days_length _ (interp_day_length) _ _ _ E1).
+  Qed.
+
+  (* a day that skips hour 23: correct_dst fails whatever happens before it *)
+  Lemma fold_interp_short23 : forall pat suf, Forall2 (fun k f => length f = rows_expected k) pat suf ->
+    has_short23 pat = true -> forall pre : list (list V),
+    exists e, fold_days (interp_day mean2) (interp_of (length pre) pat) (pre ++ suf) = Err e.
+  Proof.
+    unfold has_short23. intros pat suf H. induction H as [|k f pat suf Hf Hs IH]; intros Hx pre; [discriminate|].
+    cbn [existsb] in Hx. destruct k as [|h|h]; cbn [interp_of is_short23 orb] in *.
+    - destruct (IH Hx (pre ++ [f])) as [e E].
+      rewrite app_length in E. cbn [length] in E. rewrite Nat.add_1_r in E. rewrite <- !app_assoc in E. cbn [app] in E.
+      exists e. exact E.
+    - cbn [fold_days]. destruct (interp_day mean2 (pre ++ f :: suf) (length pre) h) as [a1|e] eqn:E1; cbn [bind];
+        [|eexists; reflexivity].
+      unfold interp_day in E1. rewrite nth_error_mid in E1.
+      match type of E1 with bind ?x _ = _ => destruct x as [a|e] end; cbn [bind] in E1; [|discriminate].
+      cbn [rows_expected] in Hf.
+      destruct (h =? 23) eqn:E23.
+      + apply Nat.eqb_eq in E23. subst h. unfold nth_res in E1.
+        replace (nth_error f 23) with (@None V) in E1 by (symmetry; apply nth_error_None; lia). discriminate.
+      + destruct (nth_res f h) as [b|e]; cbn [bind] in E1; [|discriminate].
+        rewrite replace_day_app in E1. inversion E1 as [E1']. clear E1.
+        destruct (IH Hx (pre ++ [insert_at h (mean2 a b) f])) as [e E].
+        rewrite app_length in E. cbn [length] in E. rewrite Nat.add_1_r in E. rewrite <- !app_assoc in E. cbn [app] in E.
+        exists e. exact E.
+    - destruct (IH Hx (pre ++ [f])) as [e E].
+      rewrite app_length in E. cbn [length] in E. rewrite Nat.add_1_r in E. rewrite <- !app_assoc in E. cbn [app] in E.
+      exists e. exact E.
+  Qed.
+
+  Lemma Forall2_len : forall (A B : Type) (R : A -> B -> Prop) l1 l2, Forall2 R l1 l2 -> length l1 = length l2.
+  Proof. intros A B R l1 l2 H. induction H; cbn [length]; [reflexivity | rewrite IHForall2; reflexivity]. Qed.
+
+  Lemma shape_of_realises : forall pol days pat, Forall2 (realises pol) days pat -> forallb kind_ok pat = true ->
+    Forall2 (fun k f => length f = rows_expected k) pat (map (fun d => map feat (d_rows d)) days).
+  Proof.
+    intros pol days pat Hr Hk. induction Hr as [|d k days pat Hd _ IH]; [constructor|].
+    cbn [forallb] in Hk. apply andb_true_iff in Hk. destruct Hk as [Hk1 Hk2].
+    cbn [map]. constructor; [|apply IH; exact Hk2].
+    rewrite map_length, <- (clock_hours_length k Hk1). destruct Hd as (Hh & _ & _). rewrite <- Hh.
+    unfold hours. rewrite map_length. reflexivity.
+  Qed.
+
+  (* interpolated values: reading prediction[i] beyond the end fails *)
+  Lemma interp_vals_oob : forall (pred : list V) idxs, (exists i, In i idxs /\ length pred <= i) ->
+    exists e, interp_vals mean2 pred idxs = Err e.
+  Proof.
+    intros pred. induction idxs as [|i0 t IH]; intros (i & Hin & Hi); [destruct Hin|].
+    cbn [interp_vals]. destruct (nth_error pred (i0 - 1)) as [a|]; [|eexists; reflexivity].
+    destruct (nth_error pred i0) as [b|] eqn:Eb; [|eexists; reflexivity].
+    destruct Hin as [Hin|Hin].
+    - subst i0. assert (nth_error pred i = None) by (apply nth_error_None; exact Hi). congruence.
+    - destruct (IH (ex_intro _ i (conj Hin Hi))) as [e E]. rewrite E. exists e. reflexivity.
+  Qed.
+
+  Lemma mean_of_last : forall p i h, In (i + length p, h) (mean_of i (p ++ [Long h])).
+  Proof.
+    induction p as [|k p IH]; intros i h.
+    - cbn. left. f_equal. lia.
+    - cbn [app length]. replace (i + S (length p)) with (S i + length p) by lia.
+      destruct k; cbn [mean_of]; [apply IH | apply IH | right; apply IH].
+  Qed.
+
+  Lemma hourly_predict_fails_l : forall pol days pat, Forall2 (realises pol) days pat ->
+    forallb kind_ok pat = true -> no_clash pat = true -> pattern_ok pat = false ->
+    exists e, hourly_predict mean2 feat regress pol days = Err e.
+  Proof.
+    intros pol days pat Hr Hk Hn Hp.
+    rewrite (pattern_ok_char pat Hk Hn) in Hp.
+    assert (Hshape := shape_of_realises pol days pat Hr Hk).
+    unfold hourly_predict. rewrite (get_dst_indices_valid_l pol days pat Hr Hk). cbn [bind].
+    set (agg := map (fun d => map feat (d_rows d)) days) in *.
+    destruct (has_short23 pat) eqn:E23.
+    - (* a day skips hour 23 *)
+      destruct (fold_interp_short23 pat agg Hshape E23 []) as [e E]. cbn [length app] in E.
+      unfold feature_matrix, correct_dst, indices_of. cbn [fst snd]. rewrite E. cbn [bind]. exists e. reflexivity.
+    - cbn [negb andb] in Hp. apply negb_false_iff in Hp.
+      destruct (feature_matrix mean2 agg (indices_of pat)) as [agg'|e] eqn:Ef; cbn [bind]; [|eexists; reflexivity].
+      destruct (negb (all24 agg')); [eexists; reflexivity|].
+      (* the frame ends on a day repeating hour 23 *)
+      assert (Hlen : length (regress agg') = 24 * length pat).
+      { rewrite regress_length, (feature_matrix_length _ _ _ Ef). unfold agg. rewrite map_length.
+        rewrite (Forall2_len _ _ _ _ _ Hr). reflexivity. }
+      assert (Hlast : exists p, pat = p ++ [Long 23]).
+      { unfold ends_long23 in Hp. destruct pat as [|k0 p0]; [discriminate|].
+        exists (removelast (k0 :: p0)). rewrite (app_removelast_last Reg) at 1 by discriminate.
+        f_equal. destruct (last (k0 :: p0) Reg) as [|h|h]; try discriminate. apply Nat.eqb_eq in Hp. subst. reflexivity. }
+      destruct Hlast as [p Ep].
+      assert (Hoob : exists e, interp_vals mean2 (regress agg') (map snd (interp_ops (mean_of 0 pat))) = Err e).
+      { apply interp_vals_oob. exists (length p * 24 + 23 + 1). split.
+        - apply in_map_iff. exists (INTERPOLATE, length p * 24 + 23 + 1). split; [reflexivity|].
+          unfold interp_ops. apply in_map_iff. exists (length p, 23). split; [reflexivity|].
+          rewrite Ep. apply (mean_of_last p 0 23).
+        - rewrite Hlen, Ep, app_length. cbn [length]. lia. }
+      destruct Hoob as [e E]. unfold transform_dst, indices_of. cbn [fst snd]. rewrite E. cbn [bind]. exists e. reflexivity.
+  Qed.
+
+  (* the hourly predict of the model succeeds exactly on the patterns of the guard *)
+  Lemma hourly_guard_exact_l : forall pol days pat, Forall2 (realises pol) days pat ->
+    forallb kind_ok pat = true -> no_clash pat = true -> StronglySorted Z.lt (index_of days) ->
+    ((exists rows, hourly_predict mean2 feat regress pol days = Ok rows) <-> pattern_ok pat = true).
+  Proof.
+    intros pol days pat Hr Hk Hn Hs. split.
+    - intros [rows E]. destruct (pattern_ok pat) eqn:Hp; [reflexivity|].
+      destruct (hourly_predict_fails_l pol days pat Hr Hk Hn Hp) as [e E']. congruence.
+    - intros Hp. destruct (hourly_predict_valid mean2 feat regress regress_length pol days pat Hr Hp Hs) as (agg & y & E & _).
+      eexists. exact E.
+  Qed.
+End HourlyExact.
+
+Section HourlyExactRepaired.
+  Context {V : Type}.
+  Variable mean2 : V -> V -> V.
+  Variable feat : hour_stamp -> V.
+  Variable regress : list (list V) -> list V.
+  Hypothesis regress_length : forall agg, length (regress agg) = 24 * length agg.
+
+  Lemma hourly_guard_exact_repaired_l : forall days pat, Forall2 clock_only days pat ->
+    forallb kind_ok pat = true -> no_clash pat = true -> StronglySorted Z.lt (index_of days) ->
+    ((exists rows, hourly_predict mean2 feat regress repaired days = Ok rows) <-> pattern_ok pat = true).
+  Proof.
+    intros days pat H. apply (hourly_guard_exact_l mean2 feat regress regress_length repaired).
+    apply clock_only_realises_repaired. exact H.
+  Qed.
+End HourlyExactRepaired.
